@@ -23,12 +23,26 @@ from .c08 import similarity
 from .grading import cfg_text
 
 
-def build(topo: dict, positions: List[List[float]]):
-    """returns (kind, object, smoother factory, getter of current positions by vertex id)"""
+def build(topo: dict, positions: List[List[float]], merged: bool = False, rng=None):
+    """the sketch / mesh on the topology; merged: the quad map is put together from two pieces (MappedSketch.merge), each with
+    a position list of its own - the points along the seam are given twice and must become one point of the map"""
     import classy_blocks as cb
     import numpy as np
 
     cells = topo["cells"]
+    if topo["dim"] == 2 and merged and len(cells) > 1:
+        half = len(cells) // 2
+        pieces = []
+        for part in (cells[:half], cells[half:]):
+            used = sorted({v for c in part for v in c})
+            rng.shuffle(used)
+            local = {v: i for i, v in enumerate(used)}
+            pieces.append(cb.MappedSketch(np.array([positions[v] for v in used]), [[local[v] for v in c] for c in part]))
+        sketch = pieces[0]
+        sketch.merge(pieces[1])
+        merged_pos = [list(p) for p in sketch.positions]
+        sketch.spec_ids = [min(range(len(positions)), key=lambda v: vdist(positions[v], p)) for p in merged_pos]
+        return sketch
     if topo["dim"] == 2:
         sketch = cb.MappedSketch(np.array(positions), [list(c) for c in cells])
         return sketch
@@ -45,9 +59,10 @@ def current_positions(obj, topo: dict, npoints: int) -> Dict[int, List[List[floa
     """every copy of every point held by the object (faces / vertices), by specification vertex id"""
     out: Dict[int, List[List[float]]] = {v: [] for v in range(npoints)}
     if topo["dim"] == 2:
+        ids = getattr(obj, "spec_ids", None)
         for quad, face in zip(obj.indexes, obj.faces):
             for v, p in zip(quad, face.point_array):
-                out[v].append([float(x) for x in p])
+                out[v if ids is None else ids[v]].append([float(x) for x in p])
     else:
         for cell, block in zip(topo["cells"], obj.blocks):
             for v, vertex in zip(cell, block.vertices):
@@ -65,6 +80,11 @@ def run_case(ctx: Ctx, topo: dict, rng: random.Random, mode: str, recs: list, me
     coords = {int(k): v for k, v in coords.items()} if isinstance(coords, dict) else dict(enumerate(coords))
     npts = len(coords)
     base = [point(coords[v]) for v in range(npts)]
+    merged = mode == "merged"
+    if merged:
+        if topo["dim"] != 2 or len(topo["cells"]) < 2:
+            return
+        mode = "all-free"
     far = mode == "far"
     if far:
         # the same topology thousands of cell sizes away from the origin, jittered by a hundredth of a cell: what
@@ -98,7 +118,11 @@ def run_case(ctx: Ctx, topo: dict, rng: random.Random, mode: str, recs: list, me
         fixed = [v for v in interior if v != free_one]
         fix_by = "index"
     try:
-        obj = build(topo, pos)
+        obj = build(topo, pos, merged, rng)
+        if merged and len(obj.positions) != npts:
+            ctx.violation(f"merge:positions:{topo['topo']['kind']}", f"a quad map of {npts} points merged from two pieces has {len(obj.positions)} positions",
+                          {"topo": topo["topo"]})
+            return
         smoother = cb.SketchSmoother(obj) if topo["dim"] == 2 else cb.MeshSmoother(obj)
         if topo["dim"] == 3:
             # the mesh numbers its vertices in order of first appearance: map specification ids -> mesh indexes
@@ -106,6 +130,8 @@ def run_case(ctx: Ctx, topo: dict, rng: random.Random, mode: str, recs: list, me
             for cell, block in zip(topo["cells"], obj.blocks):
                 for v, vertex in zip(cell, block.vertices):
                     idmap[v] = vertex.index
+        elif merged:
+            idmap = {sid: i for i, sid in enumerate(obj.spec_ids)}
         else:
             idmap = {v: v for v in range(npts)}
         if fixed:
@@ -121,7 +147,7 @@ def run_case(ctx: Ctx, topo: dict, rng: random.Random, mode: str, recs: list, me
         return
     ctx.evaluated(f"{topo['topo']}:{mode}:{fix_by}:{sorted(fixed)}")
     after = current_positions(obj, topo, npts)
-    key = f"{topo['topo']['kind']}:{mode}" + (":far-from-origin" if far else "")
+    key = f"{topo['topo']['kind']}:{mode}" + (":far-from-origin" if far else "") + (":merged-from-pieces" if merged else "")
     # copy-back: every holder of a point has the same position
     for v, copies in after.items():
         if any(vdist(c, copies[0]) > 1e-12 * max(1.0, vnorm(copies[0])) for c in copies[1:]):
@@ -147,6 +173,56 @@ def run_case(ctx: Ctx, topo: dict, rng: random.Random, mode: str, recs: list, me
             ctx.violation(f"not-regular-lattice:{key}", f"interior points end {off / size:.3g} sizes away from the regular lattice", {"topo": topo["topo"]})
 
 
+def merged_maps(ctx: Ctx, rng: random.Random) -> None:
+    """Merge.tla: TLC checks Unique / Covers / Faithful / Stable over all lists of pieces and emits every finished merge with
+    the expected position list and quads; each is replayed into MappedSketch.merge (one sketch, or a list of sketches) under
+    a random similarity and compared index by index; every face must hold the points its quad refers to."""
+    import classy_blocks as cb
+    import numpy as np
+
+    consts = {"MaxPieces": "2", "Cols": "{0, 1, 2}" if ctx.tier == "quick" else "{0, 1, 2, 3}", "Rows": "{0, 1}"}
+    res = run_tlc("Merge", "merge.cfg", cfg_text=cfg_text("Spec", consts, ["Unique", "Covers", "Faithful"], ["Stable"], constraints=["Emit"]),
+                  workers=1, timeout=900)
+    ctx.add_tlc(res)
+    cases = [r for r in res.records if "others" in r]
+    if len(cases) < 50:
+        raise MachineryError("Merge.tla emitted too few merges")
+    rng.shuffle(cases)
+    for case in cases[: (150 if ctx.tier == "quick" else 3000)]:
+        point, _vector, scale = similarity(rng)
+
+        def xyz(pid):
+            return point([float(pid % 10), float(pid // 10), 0.0])
+
+        def sketch(piece):
+            return cb.MappedSketch(np.array([xyz(p) for p in piece["pos"]]), [[i - 1 for i in q] for q in piece["quads"]])
+        rep = {"first": case["first"], "others": case["others"]}
+        try:
+            acc = sketch(case["first"])
+            rest = [sketch(o) for o in case["others"]]
+            if len(rest) == 1 and rng.random() < 0.5:
+                acc.merge(rest[0])
+            else:
+                acc.merge(rest)
+            got_pos = [list(p) for p in acc.positions]
+            got_quads = [[int(i) for i in q] for q in acc.indexes]
+            held = [[list(p) for p in face.point_array] for face in acc.faces]
+        except Exception as err:  # pylint: disable=broad-except
+            ctx.violation(f"merge:raises:{type(err).__name__}", f"MappedSketch.merge raised {err}", rep)
+            continue
+        ctx.evaluated(f"merge:{case['first']['pos']}:{[o['pos'] for o in case['others']]}")
+        ctx.validated()
+        want_pos = [xyz(p) for p in case["pos"]]
+        want_quads = [[i - 1 for i in q] for q in case["quads"]]
+        tol = 1e-9 * max(1.0, scale)
+        if len(got_pos) != len(want_pos) or any(vdist(a, b) > tol for a, b in zip(got_pos, want_pos)):
+            ctx.violation("merge:positions", f"merged position list has {len(got_pos)} entries / differs from Merge.tla's ({len(want_pos)})", rep)
+        elif got_quads != want_quads:
+            ctx.violation("merge:quads", "the quads of the merged sketch differ from Merge.tla's", dict(rep, got=got_quads, want=want_quads))
+        elif len(held) != len(want_quads) or any(vdist(held[j][k], want_pos[want_quads[j][k]]) > tol for j in range(len(held)) for k in range(4)):
+            ctx.violation("merge:faces", "a face of the merged sketch does not hold the points its quad refers to", rep)
+
+
 def run(ctx: Ctx) -> None:
     ctx.rule = ("topologies = structured quad grids, two O-grids and structured hex grids emitted by Smooth.tla; per topology several "
                 "runs (all free / random fixed sets by index or position / single free point with one sweep / regular start) under "
@@ -162,7 +238,7 @@ def run(ctx: Ctx) -> None:
     meta: Dict[int, dict] = {}
     reps = 3 if ctx.tier == "quick" else 10
     for topo in topos:
-        for mode in ("all-free", "fixed", "single-free", "regular-start", "far"):
+        for mode in ("all-free", "fixed", "single-free", "regular-start", "far", "merged"):
             for _ in range(reps if mode in ("fixed", "single-free") else 1):
                 run_case(ctx, topo, rng, mode, recs, meta)
     if not recs:
@@ -181,4 +257,5 @@ def run(ctx: Ctx) -> None:
         for c in verdicts[r["id"]]:
             ctx.violation(f"smooth:{c}:{meta[r['id']]['key']}:fix-by-{meta[r['id']]['fix_by']}", f"Smooth.tla clause {c} rejected the run", {"record": r, "meta": meta[r["id"]]})
     ctx.sample({k: recs[0][k] for k in ("topo", "fixed", "moved")})
+    merged_maps(ctx, rng)
     ctx.exhaustive = False
